@@ -12,10 +12,10 @@ RULE = ('case = (constraint text of 1-4 lines over an expression zoo, comparator
 ASSUMPTIONS = ['strict comparators are shifted by tolerance(rhs) as documented; points inside that band are not judged for the sign/satisfaction equivalence',
                'penalty values compared with rel 1e-9', 'the constraint-drives-penalty-to-zero clause uses isolated-form texts whose left-hand variables do not feed one another']
 CLASSES = {
-    'conditions': {'quick': 36000, 'thorough': 280000},
-    'interleaved': {'quick': 6000, 'thorough': 40000},
-    'penalty': {'quick': 24000, 'thorough': 160000},
-    'constraint_zeroes_penalty': {'quick': 9600, 'thorough': 60000},
+    'conditions': {'quick': 36000, 'thorough': 360000},
+    'interleaved': {'quick': 6000, 'thorough': 60000},
+    'penalty': {'quick': 24000, 'thorough': 240000},
+    'constraint_zeroes_penalty': {'quick': 9600, 'thorough': 96000},
 }
 MIN_EVENTS = {'quick': {'assert:cond': 6000, 'assert:pen': 3000, 'assert:cross': 700, 'interleaved_sets_judged': 2000, 'with_user_locals': 1000}}
 CASE_TIMEOUT = 120
